@@ -72,7 +72,7 @@ Fixpoint last_end (l : list bool) : nat :=
   end.
 
 (** Scanner state after [i] characters of [s] (0 = not in the middle of a match). *)
-Fixpoint st (p : pattern) (k : nat) (s : text) (i : nat) : nat :=
+Fixpoint st (p : pattern) (k : nat) (s : text) (i : nat) {struct i} : nat :=
   match i with
   | O => k
   | S i' =>
